@@ -2510,6 +2510,7 @@ static int next_token(struct scanner_s *scanner) {
                                  * always whitespace
                                  */
                                 scanner->next_char += 1;
+                                POSN_INCCOLUMN(scanner, 1);
                                 ttype = KEY;
                                 break;
                             }
@@ -2534,6 +2535,7 @@ static int next_token(struct scanner_s *scanner) {
                                 if (c == UCHAR_COLON) {
                                     /* Not diagnosed as an error _here_ */
                                     scanner->next_char += 1;
+                                    POSN_INCCOLUMN(scanner, 1);
                                     ttype = TKEY;
                                 }
                             } else if (result == CIF_EOF) {
@@ -2883,6 +2885,7 @@ static int scan_delim_string(struct scanner_s *scanner) {
                         /* test for a third delimiter character */
                         if (c == delim) {
                             scanner->next_char += 1;
+                            POSN_INCCOLUMN(scanner, 1);
                             return scan_triple_delim_string(scanner);
                         }
                     }
@@ -2960,6 +2963,8 @@ static int scan_triple_delim_string(struct scanner_s *scanner) {
             } else {
                 delim_count = 0;
                 if (CLASS_OF(c, scanner) == EOL_CLASS) {
+                    /* line terminators do not count toward the line length */
+                    POSN_INCCOLUMN(scanner, -1);
                     HANDLE_EOL(scanner, c, sol);
                 } else {
                     sol = 0;
@@ -3031,6 +3036,8 @@ static int scan_text(struct scanner_s *scanner) {
                         struct scanner_s *_s_eol = (scanner);
                         UChar _c = (c);
 
+                        /* line terminators do not count toward the line length */
+                        POSN_INCCOLUMN(scanner, -1);
                         if (POSN_COLUMN(scanner) > CIF_LINE_LENGTH) {
                             int _ev = _s_eol->error_callback(CIF_OVERLENGTH_LINE, _s_eol->line,
                                     scanner->column, _s_eol->next_char - 1, 0, _s_eol->user_data);
